@@ -49,6 +49,10 @@ type Options struct {
 	Checks   bool   // run reference-model checks
 	// RefOnly: only the sequential pass.
 	RefOnly bool
+	// Reverse: after the scheduled pass, re-execute every history-free
+	// operation alone, in reverse order, on fresh objects; the result must not
+	// depend on what was called before (purity).
+	Reverse bool
 	// Plan, if set, is called after the sequential pass of every epoch with
 	// the statement counts of its operations, and fills in the schedule.
 	Plan func(ei int, steps [][]uint64)
@@ -441,6 +445,9 @@ func Execute(p *Program, opt *Options) *Outcome {
 				}
 			}
 		}
+		if opt.Reverse {
+			viol = append(viol, reversePass(p, ei, opt, conc)...)
+		}
 		for _, pass := range []*epochRun{ref, conc} {
 			pass := pass
 			stop := false
@@ -467,4 +474,44 @@ func Execute(p *Program, opt *Options) *Outcome {
 	}
 	sort.Strings(out.FaultKinds)
 	return out
+}
+
+// reversePass re-executes the history-free operations of an epoch one by one,
+// last task first and last operation first, each on freshly built objects,
+// on the controller. A result that differs from the one obtained in program
+// order depends on something other than the arguments and the mode.
+func reversePass(p *Program, ei int, opt *Options, conc *epochRun) []Violation {
+	ep := &p.Epochs[ei]
+	var viol []Violation
+	sm := NewSim(opt.Budget, opt.Sites)
+	defer sm.Close()
+	decimal128.VerifHook = sm.Hook
+	defer func() { decimal128.VerifHook = nil }()
+	*modePtr = decimal128.RoundingMode(ep.Mode)
+	var pool *poolObjs
+	var poolHash uint64
+	for ti := len(ep.Tasks) - 1; ti >= 0; ti-- {
+		for oi := len(ep.Tasks[ti].Ops) - 1; oi >= 0; oi-- {
+			op := &ep.Tasks[ti].Ops[oi]
+			if op.streamOp() || op.historyOp() || oi >= len(conc.results[ti]) {
+				continue
+			}
+			def := Ops[op.Kind]
+			if pool == nil || pool.hash() != poolHash {
+				pool = buildPool(&p.Pool)
+				poolHash = pool.hash()
+			}
+			e := &epochRun{sim: sm, prog: p, ep: ep, epIdx: ei, opt: opt, pool: pool}
+			x := &Ctx{sim: sm, ep: e, mode: ep.Mode, pool: pool, priv: &privObjs{}, task: ti}
+			r := &Result{}
+			sm.BeginOp(oi, op.Kind, nil)
+			def.Exec(x, op, r)
+			sm.EndOp()
+			if got, want := r.Key(), conc.results[ti][oi].Key(); got != want {
+				viol = append(viol, Violation{Property: opt.Property, Class: VNondet, Op: op.Kind, Epoch: ei, Task: ti, Index: oi,
+					Detail: fmt.Sprintf("result depends on the calls made before: in program order %.200s / alone, in reverse order %.200s", want, got)})
+			}
+		}
+	}
+	return viol
 }
